@@ -1,6 +1,23 @@
 import TvCore.Props.C09
+import TvCore.Props.C09Fanout
 #print axioms TV.C09.receive_sound
 #print axioms TV.C09.drop_isolated
 #print axioms TV.C09.at_most_one
 #print axioms TV.C09.truncation
 #print axioms TV.C09.join_nodup
+#print axioms TV.C09.fanout_sends
+#print axioms TV.C09.fanout_sends_allowed
+#print axioms TV.C09.fanout_loopback_exact
+#print axioms TV.C09.bcast_targets
+#print axioms TV.C09.mcast_targets
+#print axioms TV.C09.mcast_own_loop
+#print axioms TV.C09.mcast_loopback_exact
+#print axioms TV.C09.leave_removes
+#print axioms TV.C09.leave_nodup
+#print axioms TV.C09.leave_keys_nodup
+#print axioms TV.C09.join_keys_nodup
+#print axioms TV.C09.join_adds_only
+#print axioms TV.C09.unicast_one
+#print axioms TV.C09.send_sound
+#print axioms TV.C09.setBcast_flag
+#print axioms TV.C09.setMloop_flag
